@@ -139,8 +139,10 @@ type WireReader struct {
 	accSz []int
 }
 
+// nextSeg moves to the next non-empty segment if the current one is exhausted.
+// It returns false at the end of the wire (then r.seg == len(r.wire) and must not be used as an index).
 func (r *WireReader) nextSeg() bool {
-	if r.seg < len(r.wire) && r.pos >= len(r.wire[r.seg]) {
+	for r.seg < len(r.wire) && r.pos >= len(r.wire[r.seg]) {
 		r.seg++
 		r.pos = 0
 	}
@@ -148,7 +150,10 @@ func (r *WireReader) nextSeg() bool {
 }
 
 func (r *WireReader) Read(b []byte) (int, error) {
-	if !r.nextSeg() && len(b) > 0 {
+	if !r.nextSeg() {
+		if len(b) == 0 {
+			return 0, nil
+		}
 		return 0, io.EOF
 	}
 	n := copy(b, r.wire[r.seg][r.pos:])
@@ -166,7 +171,8 @@ func (r *WireReader) ReadByte() (byte, error) {
 }
 
 func (r *WireReader) UnreadByte() error {
-	if r.pos == 0 {
+	// Step back over exhausted and empty segments.
+	for r.pos == 0 {
 		if r.seg == 0 {
 			return errors.New("encoding.WireReader.UnreadByte: negative position")
 		}
@@ -303,12 +309,9 @@ func (r *WireReader) Skip(n int) error {
 		return io.EOF
 	}
 	r.pos += n
-	for r.pos > len(r.wire[r.seg]) {
+	for r.seg < len(r.wire) && r.pos > len(r.wire[r.seg]) {
 		r.pos -= len(r.wire[r.seg])
 		r.seg++
-		if r.seg >= len(r.wire) {
-			return io.EOF
-		}
 	}
 	return nil
 }
